@@ -8,3 +8,4 @@ register_simp_attr keepsAuth
 register_simp_attr keepsInit
 register_simp_attr keepsSad
 register_simp_attr keepsOps
+register_simp_attr keepsN13
